@@ -160,7 +160,7 @@ def dump (s : St) (nKeys nWants nConns : Nat) : String :=
   " C=" ++ joinNat ((List.range nConns).filter (fun c => s.closed c)) ++
   " S=" ++ String.ofList ((List.range nWants).map fun w =>
       if (s.wkey w).isNone then '.' else if s.wst w = .waiting then 'w' else 'd') ++
-  (if s.panicked then " PANIC" else "")
+  (if s.dupPanic || s.underflow then " PANIC" else "")
 
 /-- Run composite ops; per op: `<return>/<dump>`. -/
 def runLane (cfg : Cfg) (nKeys nWants nConns : Nat) : LSt → List MOp → List String
